@@ -13,21 +13,37 @@ open Iface C07L
 
 /-- reachable states of the repaired code -/
 def Reachable (s : St) : Prop :=
-  ∃ types vtyp vars0 ops, (∀ v, ∃ x, vars0 v = Words.val x) ∧ (∀ op ∈ ops, op.builderApi = true)
-    ∧ run Cfg.fixed (St.init types vtyp vars0) ops = some s
+  ∃ types vtyp vars0 sigs ops, (∀ v, ∃ x, vars0 v = Words.val x) ∧ (∀ op ∈ ops, op.builderApi = true)
+    ∧ run Cfg.fixed (St.init types vtyp vars0 sigs) ops = some s
 
 theorem reachable_inv {s : St} (h : Reachable s) : Inv Cfg.fixed s := by
-  obtain ⟨types, vtyp, vars0, ops, hv, hapi, hr⟩ := h
-  exact inv_run Cfg.fixed ops _ s (inv_init Cfg.fixed types vtyp vars0 hv) hapi hr
+  obtain ⟨types, vtyp, vars0, sigs, ops, hv, hapi, hr⟩ := h
+  exact inv_run Cfg.fixed ops _ s (inv_init Cfg.fixed types vtyp vars0 sigs hv) hapi hr
 
-/-- **slot = index in the type's method set.**  `methodIndexOf` (the slot goom writes) is the position at which a compiled
-    call finds the method: `typ.Method(methodIndexOf typ m).Name = m`, it is the first such position, and it equals
-    `List.idxOf`, for every method set and every method in it (exported or not, any position). -/
-theorem slot_is_type_index (ms : List String) (m : String) (h : m ∈ ms) :
+/-- **slot = index in the type's method set — full statement** (kept visible; FALSE for the code as it is, finding F27: an
+    embedded interface of another package can bring an unexported method with the same *name* as an own method, and
+    `methodIndexOf` compares names only, see `Findings/C07F.lean`). -/
+def SlotIsTypeIndex : Prop :=
+  ∀ (ms : List String) (m : String), m ∈ ms → ms[methodIndexOf ms m]? = some m
+
+/-- **slot = index in the type's method set** for every method whose name is not shadowed (`NoShadow`: no other member of
+    the method set has the same name — always true unless a foreign unexported method of the same name is embedded):
+    `typ.Method(methodIndexOf typ m)` is `m`, it is the first such position, and it equals `List.idxOf` — for every method
+    set, exported or not, any position. -/
+theorem slot_is_type_index_partial (ms : List String) (m : String) (h : m ∈ ms) (hns : NoShadow ms m) :
     ms[methodIndexOf ms m]? = some m ∧ (∀ j < methodIndexOf ms m, ms[j]? ≠ some m) ∧ methodIndexOf ms m = ms.idxOf m := by
-  obtain ⟨j, h1, h2, h3⟩ := methodIndexFrom_spec ms m 0 h
+  obtain ⟨j, h1, h2, h3⟩ := methodIndexFrom_spec ms m 0 h hns
   have e : methodIndexOf ms m = j := by simp [methodIndexOf, h1]
-  refine ⟨by rw [e]; exact h2, by rw [e]; exact h3, methodIndexOf_eq_idxOf ms m h⟩
+  refine ⟨by rw [e]; exact h2, by rw [e]; exact h3, methodIndexOf_eq_idxOf ms m h hns⟩
+
+/-- `NoShadow` holds for every method of a set whose names are pairwise different (the usual case) -/
+theorem noShadow_of_unique_names (ms : List String) (m : String) (hm : m ∈ ms)
+    (huniq : ∀ x ∈ ms, ∀ y ∈ ms, baseName x = baseName y → x = y) (hb : baseName m = m) : NoShadow ms m := by
+  intro x hx
+  constructor
+  · intro e
+    exact (huniq x hx m hm (by rw [hb, ← e])).symm
+  · intro e; rw [← e, hb]
 
 example : methodIndexOf (sortMeths ["b", "Zed", "Abc", "_x"]) "_x" = 2 := by decide
 
@@ -37,15 +53,15 @@ example : methodIndexOf (sortMeths ["b", "Zed", "Abc", "_x"]) "_x" = 2 := by dec
     (`Res.cb k` = the user's closure runs on the caller's arguments; `Res.ret k` = the stubbed value; a `When(a)` stub answers
     only for argument `a`). -/
 theorem dispatch_mocked (s s' : St) (hr : Reachable s) (b v : Nat) (m : String) (kind : Kind)
-    (fits : Bool)
-    (hs : step Cfg.fixed s (.mock b v m kind fits) = some (s', .ok)) (x : Nat) :
+    (csig : Nat) (hns : NoShadow (s.types (s.vtyp v)) m)
+    (hs : step Cfg.fixed s (.mock b v m kind csig) = some (s', .ok)) (x : Nat) :
     (∃ f c, s'.vars v = .fake f c) ∧
     call s' v m x = (match kind with
       | .ap => .cb s.ncb
       | .rt => .ret s.ncb
       | .wn a => if x = a then .ret s.ncb else .panic "nomatch") := by
   obtain ⟨f, c, g, i, h1, h2, h3, h4, h5, h6, h7, h8, h9⟩ :=
-    mock_dispatch Cfg.fixed rfl s s' b v m kind fits (reachable_inv hr) hs
+    mock_dispatch Cfg.fixed rfl s s' b v m kind csig (reachable_inv hr) hns hs
   refine ⟨⟨f, c, h1⟩, ?_⟩
   simp only [call, h1, h2, h3, h5, upd_same, h7]
   cases kind with
@@ -59,8 +75,8 @@ theorem dispatch_mocked (s s' : St) (hr : Reachable s) (b v : Nat) (m : String) 
       simp [e, this]
 
 /-- the hypotheses are satisfiable: a successful `When` mock of an unexported method in a three-method interface -/
-example : (step Cfg.fixed (St.init (fun _ => sortMeths ["b", "Zed", "Abc"]) (fun _ => 0) (fun _ => .val 0))
-    (.mock 0 1 "b" (.wn 9) true)).map (·.2) = some .ok := by decide
+example : (step Cfg.fixed (St.init (fun _ => sortMeths ["b", "Zed", "Abc"]) (fun _ => 0) (fun _ => .val 0) (fun _ => [0, 0, 0]))
+    (.mock 0 1 "b" (.wn 9) 0)).map (·.2) = some .ok := by decide
 
 theorem idxOf_inj (ms : List String) (a b : String) (ha : a ∈ ms) (h : ms.idxOf a = ms.idxOf b) : a = b := by
   induction ms with
@@ -91,13 +107,13 @@ theorem idxOf_inj (ms : List String) (a b : String) (ha : a ∈ ms) (h : ms.idxO
     mocker's context the itab is fresh and calling `m'` panics with the not-implemented message; otherwise the itab is the
     one the context already had and `m'` keeps exactly the slot it had — so, by induction over the history, each method's slot
     is its own latest replacement or `notImplement`. -/
-theorem dispatch_frame (s s' : St) (hr : Reachable s) (b v : Nat) (m m' : String) (kind : Kind) (fits : Bool)
-    (hs : step Cfg.fixed s (.mock b v m kind fits) = some (s', .ok)) (hm' : m' ∈ s.types (s.vtyp v)) (hne : m' ≠ m) (x : Nat) :
+theorem dispatch_frame (s s' : St) (hr : Reachable s) (b v : Nat) (m m' : String) (kind : Kind) (csig : Nat)
+    (hns : NoShadow (s.types (s.vtyp v)) m) (hs : step Cfg.fixed s (.mock b v m kind csig) = some (s', .ok)) (hm' : m' ∈ s.types (s.vtyp v)) (hne : m' ≠ m) (x : Nat) :
     ∃ f c, s'.vars v = .fake f c ∧
       ((f = s.nfake ∧ call s' v m' x = .panic "notimpl") ∨
        (f < s.nfake ∧ (s'.fakes f).fn ((s.types (s.vtyp v)).idxOf m') = (s.fakes f).fn ((s.types (s.vtyp v)).idxOf m'))) := by
   obtain ⟨f, c, g, i, h1, h2, h3, h4, h5, h6, h7, h8, h9⟩ :=
-    mock_dispatch Cfg.fixed rfl s s' b v m kind fits (reachable_inv hr) hs
+    mock_dispatch Cfg.fixed rfl s s' b v m kind csig (reachable_inv hr) hns hs
   have hidx : (s.types (s.vtyp v)).idxOf m' ≠ (s.types (s.vtyp v)).idxOf m :=
     fun h => hne (idxOf_inj _ _ _ hm' h)
   refine ⟨f, c, h1, ?_⟩
@@ -116,27 +132,31 @@ theorem unmocked_panics (s : St) (v f c : Nat) (m : String) (x : Nat) (hv : s.va
 /-- **different variables are mocked independently.**  In every reachable state, whatever `b.Interface(&v).Method(m)…`
     does (success or panic), every other variable `w` — of the same interface type or not — keeps its two words and the
     function table it dispatches through. -/
-theorem vars_independent (s s' : St) (hr : Reachable s) (b v : Nat) (m : String) (kind : Kind) (fits : Bool) (st : Status)
-    (hs : step Cfg.fixed s (.mock b v m kind fits) = some (s', st)) (w : Nat) (hw : w ≠ v) :
+theorem vars_independent (s s' : St) (hr : Reachable s) (b v : Nat) (m : String) (kind : Kind) (csig : Nat) (st : Status)
+    (hs : step Cfg.fixed s (.mock b v m kind csig) = some (s', st)) (w : Nat) (hw : w ≠ v) :
     s'.vars w = s.vars w ∧ ∀ f c, s.vars w = .fake f c → s'.fakes f = s.fakes f :=
-  mock_other_vars Cfg.fixed rfl s s' b v m kind fits st (reachable_inv hr) hs w hw
+  mock_other_vars Cfg.fixed rfl s s' b v m kind csig st (reachable_inv hr) hs w hw
 
 /-- **a rejected mock changes nothing a caller can see.**  If the callback's signature does not fit the method
     (`proxy.Interface` returns an error), the call panics and no variable, fake interface or context (hence no backup,
     no canceled flag) changes — for the mocked variable too. -/
-theorem rejected_mock_changes_nothing (s s' : St) (hr : Reachable s) (b v : Nat) (m : String) (kind : Kind) (st : Status)
-    (hs : step Cfg.fixed s (.mock b v m kind false) = some (s', st)) :
+theorem rejected_mock_changes_nothing (s s' : St) (hr : Reachable s) (b v : Nat) (m : String) (kind : Kind) (csig : Nat)
+    (st : Status) (hrej : sigFits s (s.vtyp v) m csig = false)
+    (hs : step Cfg.fixed s (.mock b v m kind csig) = some (s', st)) :
     (∃ c, st = .panic c) ∧ s'.vars = s.vars ∧ s'.fakes = s.fakes := by
   cases st with
   | ok =>
-    obtain ⟨_, _, _, _, _, _, _, _, _, _, _, _, _, _, _, _, _, hfit⟩ := mockStep_ok Cfg.fixed s s' b v m kind false (reachable_inv hr) hs
+    obtain ⟨s2, _, j, _, hI2, hj, _, hvar, _, _, _, _, _, e5, _, _, _, hfit⟩ :=
+      mockStep_ok Cfg.fixed s s' b v m kind csig (reachable_inv hr) hs
+    have htyp : (s2.cms j).typ = s.vtyp v := by rw [(hI2.e j hj).2, hvar rfl, e5]
+    rw [htyp, hrej] at hfit
     cases hfit
   | panic c =>
-    obtain ⟨_, h1, h2⟩ := mockStep_panic Cfg.fixed s s' b v m kind false c (reachable_inv hr) hs
+    obtain ⟨_, h1, h2⟩ := mockStep_panic Cfg.fixed s s' b v m kind csig c (reachable_inv hr) hs
     exact ⟨⟨c, rfl⟩, h1, h2⟩
 
-example : (step Cfg.fixed (St.init (fun _ => sortMeths ["b", "Zed"]) (fun _ => 0) (fun _ => .val 0))
-    (.mock 0 1 "b" .ap false)).map (·.2) = some (.panic "applyerr") := by decide
+example : (step Cfg.fixed (St.init (fun _ => sortMeths ["b", "Zed"]) (fun _ => 0) (fun _ => .val 0) (fun _ => [0, 0, 0]))
+    (.mock 0 1 "b" .ap 7)).map (·.2) = some (.panic "applyerr") := by decide
 
 /-- Reset puts back the saved words — special case kept for reference (builder whose interface mocks all belong to one
     variable's context `c`); the general statement is `reset_restores_all` / `reset_any_order` below: after
@@ -166,8 +186,8 @@ theorem reset_restores_words (s s' : St) (b c v : Nat) (w : Words)
       · rfl
 
 /-- satisfiable and non-trivial: a variable holding implementation 5, two methods mocked (Apply and Return), Reset -/
-example : (run Cfg.fixed (St.init (fun _ => sortMeths ["B", "A"]) (fun _ => 0) (fun _ => .val 5))
-    [.mock 0 0 "A" .ap true, .mock 0 0 "B" .rt true, .reset 0]).map (fun s => (s.vars 0, (s.ctxs 0).canceled)) = some (.val 5, true) := by decide
+example : (run Cfg.fixed (St.init (fun _ => sortMeths ["B", "A"]) (fun _ => 0) (fun _ => .val 5) (fun _ => [0, 0, 0]))
+    [.mock 0 0 "A" .ap 0, .mock 0 0 "B" .rt 0, .reset 0]).map (fun s => (s.vars 0, (s.ctxs 0).canceled)) = some (.val 5, true) := by decide
 
 /-- **Cancel through one method's handle restores the whole variable**: `Method(m).Cancel()` on a method mocker that was
     applied (has a guard) writes the saved words back, cancels the *shared* context (so the next `Interface(&v)` starts a
@@ -180,8 +200,8 @@ theorem cancel_one_method_restores_variable (s s' : St) (i v : Nat) (w : Words)
   obtain ⟨_, _, h3, h4, _⟩ := cancelMM_single s s' i _ v w rfl hb hs
   exact ⟨h3, h4⟩
 
-example : (run Cfg.fixed (St.init (fun _ => sortMeths ["B", "A"]) (fun _ => 0) (fun _ => .val 5))
-    [.mock 0 0 "A" .ap true, .mock 0 0 "B" .rt true, .cancelM 0 0 "A", .mock 0 0 "B" .rt true]).map
+example : (run Cfg.fixed (St.init (fun _ => sortMeths ["B", "A"]) (fun _ => 0) (fun _ => .val 5) (fun _ => [0, 0, 0]))
+    [.mock 0 0 "A" .ap 0, .mock 0 0 "B" .rt 0, .cancelM 0 0 "A", .mock 0 0 "B" .rt 0]).map
       (fun s => (callSlot s 0 "A", callSlot s 0 "B", (s.ctxs 0).canceled)) = some (some .notImpl, some (.stub 2), true) := by decide
 
 /-- **the saved words are the value the variable held before the first mock**: `proxy.Interface` (the only writer of the
@@ -213,11 +233,11 @@ theorem canceled_context_fresh_itab (cfg : Cfg) (s s' : St) (v t c : Nat) (m : S
     the fabricated table, so `proxy.Interface` never leaves the modelled fragment; at the bound (index ≥ `maxMethod`, only
     possible for wider interfaces) the model has no successor state (`none`; the Go code panics with index out of range). -/
 theorem within_bound (cfg : Cfg) (s : St) (v t c : Nat) (m : String) (k : Nat) (cb : Cb) :
-    (m ∈ s.types t → (s.types t).length ≤ maxMethod → (proxyInterface cfg s v t c m k cb).isSome = true)
+    (m ∈ s.types t → NoShadow (s.types t) m → (s.types t).length ≤ maxMethod → (proxyInterface cfg s v t c m k cb).isSome = true)
     ∧ (maxMethod ≤ methodIndexOf (s.types t) m → proxyInterface cfg s v t c m k cb = none) := by
   constructor
-  · intro hm hl
-    have h1 := (slot_is_type_index _ _ hm).2.2
+  · intro hm hns hl
+    have h1 := (slot_is_type_index_partial _ _ hm hns).2.2
     have h2 : (s.types t).idxOf m < (s.types t).length := List.idxOf_lt_length_of_mem hm
     simp only [proxyInterface]
     split
@@ -239,13 +259,13 @@ theorem retained_while_held (s : St) (hr : Reachable s) (v : Nat) : ∀ n ∈ ne
   needed_reachable Cfg.fixed s rfl (reachable_inv hr) v
 
 /-- satisfiable: a reachable state with three live mocks, builder dropped, everything needed is reachable -/
-example : (run Cfg.fixed (St.init (fun _ => sortMeths ["B", "A"]) (fun _ => 0) (fun _ => .val 0))
-    [.mock 0 0 "A" .rt true, .mock 0 0 "B" .rt true, .mock 0 0 "A" .ap true, .drop 0]).map
+example : (run Cfg.fixed (St.init (fun _ => sortMeths ["B", "A"]) (fun _ => 0) (fun _ => .val 0) (fun _ => [0, 0, 0]))
+    [.mock 0 0 "A" .rt 0, .mock 0 0 "B" .rt 0, .mock 0 0 "A" .ap 0, .drop 0]).map
       (fun s => ((needed s 0).length, (needed s 0).all (fun n => (bfs s 64 [.var 0] []).contains n))) = some (3, true) := by decide
 
 theorem reachable_inv2 {s : St} (h : Reachable s) : Inv2 Cfg.fixed s := by
-  obtain ⟨types, vtyp, vars0, ops, hv, hapi, hr⟩ := h
-  exact inv2_run Cfg.fixed ops _ s (inv_init Cfg.fixed types vtyp vars0 hv) (inv2_init Cfg.fixed types vtyp vars0) hapi hr
+  obtain ⟨types, vtyp, vars0, sigs, ops, hv, hapi, hr⟩ := h
+  exact inv2_run Cfg.fixed ops _ s (inv_init Cfg.fixed types vtyp vars0 sigs hv) (inv2_init Cfg.fixed types vtyp vars0 sigs) hapi hr
 
 /-- variable `v` is mocked through builder `b`, with saved words `w`: one of the builder's interface method mockers has a
     guard (a mock was applied through it) and its context backed up `v` holding `w` -/
@@ -339,9 +359,9 @@ theorem reset_order_irrelevant (s s1 s2 : St) (hr : Reachable s) (b : Nat) (l1 l
     builder, a third variable in another builder; a rejected mock and a per-method Cancel in between; `Reset` of builder 0
     restores variables 0 and 1 and leaves builder 1's variable 2 mocked -/
 example : (run Cfg.fixed (St.init (fun _ => sortMeths ["B", "A"]) (fun v => if v = 2 then 1 else 0)
-      (fun v => if v = 1 then .val 5 else .val 0))
-    [.mock 0 0 "A" .ap true, .mock 0 1 "B" .rt true, .mock 1 2 "A" .ap true, .mock 0 1 "A" .ap false,
-     .mock 0 0 "B" .ap true, .cancelM 0 0 "A", .mock 0 0 "B" .rt true, .reset 0]).map
+      (fun v => if v = 1 then .val 5 else .val 0) (fun _ => [0, 0, 0]))
+    [.mock 0 0 "A" .ap 0, .mock 0 1 "B" .rt 0, .mock 1 2 "A" .ap 0, .mock 0 1 "A" .ap 7,
+     .mock 0 0 "B" .ap 0, .cancelM 0 0 "A", .mock 0 0 "B" .rt 0, .reset 0]).map
       (fun s => (s.vars 0, s.vars 1, callSlot s 2 "A")) = some (.val 0, .val 5, some (.stub 2)) := by decide
 
 end C07
